@@ -1013,8 +1013,8 @@ def mode_traces(ctx):
     import multiprocessing as mp
     global _POOL_ROOT
     _POOL_ROOT = ctx.tmpdir("pool")
-    n_dw = ctx.pick(800, 24000)
-    n_git = ctx.pick(300, 8000)
+    n_dw = ctx.pick(800, 16000)
+    n_git = ctx.pick(300, 5000)
     per = ctx.pick(50, 400)
     jobs = []
     tid = 1
@@ -1106,7 +1106,7 @@ def consts(fam, maxkeys, namemask=4095, defect="none"):
 
 FAMILIES = {
     "quick": [("quick", 2, 13)],
-    "thorough": [("names", 2, 7), ("namesq", 3, 23), ("names3", 3, 23), ("flags", 2, 3), ("stat", 2, 3), ("exts", 3, 0), ("hist", 0, 0)],
+    "thorough": [("names", 2, 13), ("namesq", 3, 37), ("names3", 3, 37), ("flags", 2, 3), ("stat", 2, 3), ("exts", 3, 0), ("hist", 0, 0)],
 }
 GITBUILD_FROM = {"quick": ["quick"], "thorough": ["names", "namesq", "flags", "hist"]}
 
